@@ -86,7 +86,8 @@ def run_impl(case):
         return {"reason": reason, "page": format_error(case["code"], _s(case["msg"])).hex()}
     if case["k"] == "resp":
         reason = status_codes.RESPONSES.get(case["code"], "Unknown")
-        return {"reason": reason, "ver": version.MITMPROXY, "resp": make_error_response(case["code"], _s(case["msg"])).hex()}
+        return {"reason": reason, "line_reason": status_codes.RESPONSES.get(case["code"], ""), "ver": version.MITMPROXY,
+                "resp": make_error_response(case["code"], _s(case["msg"])).hex()}
     over = {}
     if case["limit"]:
         over["body_size_limit"] = case["limit"]
@@ -103,7 +104,7 @@ def coq_case(case, obs):
         return (f"Page {cN(case['code'])} {clist([cN(ord(c)) for c in obs['reason']], 'N')} "
                 f"{clist([cN(c) for c in case['msg']], 'N')} {cbytes(bytes.fromhex(obs['page']))}")
     if case["k"] == "resp":
-        return (f"Resp {cN(case['code'])} {cbytes(obs['reason'].encode())} {cbytes(obs['ver'].encode())} "
+        return (f"Resp {cN(case['code'])} {cbytes(obs['line_reason'].encode())} {clist([cN(ord(c)) for c in obs['reason']], 'N')} {cbytes(obs['ver'].encode())} "
                 f"{clist([cN(c) for c in case['msg']], 'N')} {cbytes(bytes.fromhex(obs['resp']))}")
     return None
 
